@@ -627,3 +627,21 @@ func init() {
 		return nil
 	}
 }
+
+func init() {
+	// reflect.New(T): a Value holding a *T that points to a fresh zero T
+	stubs["reflect.New"] = func(t *Thread, fn *ssa.Function, args []Value, pos token.Pos) Value {
+		e := t.e
+		rt, ok := args[0].(*RType)
+		if !ok {
+			if i, isI := args[0].(Iface); isI {
+				rt, ok = i.v.(*RType)
+			}
+		}
+		if !ok || rt == nil || rt.t == nil {
+			e.unsupported("reflect.New of an unknown type")
+		}
+		cell := e.newCell(e.zero(rt.t))
+		return &RValue{valid: true, t: types.NewPointer(rt.t), v: cell}
+	}
+}
